@@ -127,6 +127,7 @@ class RewardLaw:
         self.noise = []
         self.overrides = {int(r): v for r, v in spec.get("overrides", [])}
         self.npfloat = bool(spec.get("npfloat", False))
+        self.inttype = bool(spec.get("inttype", False))
         self.domain = [[float(a), float(b)] for a, b in domain]
 
     def _n(self, i):
@@ -147,6 +148,8 @@ class RewardLaw:
         else:
             v = self._value(i, x)
         v = float(v)
+        if self.inttype and v == int(v) and abs(v) < 2.0 ** 53:
+            return int(v)
         return np.float64(v) if self.npfloat else v
 
     def _value(self, i, x):
@@ -391,7 +394,9 @@ class Session:
         self.record_learners = record_learners
         self.record_partitions = record_partitions
         # the object handed to PyXAB (optionally one that another session uses as well)
-        self.domain = domain_obj if domain_obj is not None else copy.deepcopy(case["domain"])
+        from pbt.gen import materialise_domain
+
+        self.domain = domain_obj if domain_obj is not None else materialise_domain(case)
         self.domain_snapshot = copy.deepcopy(case["domain"])
         self.domain_inner_ids = [id(x) for x in self.domain]
         self.d = len(self.domain)
@@ -421,9 +426,12 @@ class Session:
         lab = self.case.get("labels")
         if not lab:
             return i
-        if "list" in lab:
-            return lab["list"][i - 1]
-        return lab.get("t0", 1) + i - 1
+        v = lab["list"][i - 1] if "list" in lab else lab.get("t0", 1) + i - 1
+        if lab.get("type") == "npint":
+            return np.int64(v)
+        if lab.get("type") == "float":
+            return float(v)
+        return v
 
     def partition_class(self):
         pspec = self.case["partition"]
